@@ -4,6 +4,10 @@ primitives of coq/Model/C12.v, which itself imports the regenerated constants of
 
 Translated functions (source -> generated definition):
   util.is_same_domain                               gen_is_same_domain host pattern : bool
+  util.strings_differ                               gen_strings_differ s1 s2 : bool            (int arithmetic: table below)
+  session CookieSession.new/get_csrf_token          gen_sess_new / gen_sess_get r st : text * option text   (the legacy policy calls them)
+  csrf.get_csrf_token / new_csrf_token (module API) gen_api_get / gen_api_new s r st : text * option text    (what a view body calls)
+  config set_default_csrf_options + DefaultCSRFOptions.__init__   gen_directive_options d : options   (data flow; translate_cfg.py)
   csrf.{Legacy,Session,Cookie}*Policy.new/get/check gen_<pol>_new / _get : text * option text ; gen_<pol>_check : tverdict * option text
   csrf.check_csrf_token                             gen_check_csrf_token s token header raises r : tverdict
   csrf.check_csrf_origin (with its _fail closure)   gen_check_csrf_origin settings caller allow raises r : overdict
@@ -62,6 +66,14 @@ fallback text (harness/c12/gen_fallback.json = translation of the text the model
     self.get_csrf_token(request) / self.new_csrf_token(request)   the generated function of the same class, threading ST
     bytes_(x, 'utf-8') encode_tok true x ; bytes_(x) encode_tok false x : None = UnicodeEncodeError
     strings_differ(a, b)         strings_differ a b
+  strings_differ (spec flag arith): int literal n  n : N ; len(b) length b (only compared: Nat.eqb) ; n += e  n := N.add n e, a truth
+    value e added as b2n e (True = 1) ; compare_digest(a, b) bytes_eqb a b (hmac, binding checked) ; n != 0  negb (N.eqb n 0)
+  session object (store 'sessobj', decorators must be exactly @manage_changed / @manage_accessed):
+    self.get('_csrft_', None) ST ; self['_csrft_'] = x  ST := Some x (the same literal key in both) ;
+    text_(binascii.hexlify(os.urandom(n))), n >= 16   r_fresh r ; self.new_csrf_token()  gen_sess_new r ST
+    legacy policy: request.session.new_csrf_token() / .get_csrf_token()   gen_sess_new / gen_sess_get r ST
+  module API (spec flag api): request.registry [.getUtility(ICSRFStoragePolicy)] (directly or through locals) the policy ;
+    policy.get_csrf_token(request) / .new_csrf_token(request)   gen_policy_get / gen_policy_new s r ST (dispatch glue)
   csrf_view: info.options.get('require_csrf') c_explicit c (x is True: is_true, x is not False: negb is_false) ;
     info.registry.queryUtility(IDefaultCSRFOptions) registered_options c : option options ; defaults.<field> o_<field> ;
     info.exception_only c_exception_only c ; frozenset([lits]) the list ; callback is None / callback(request)  negb has-callback / r_cb r ;
@@ -78,10 +90,11 @@ HERE = os.path.dirname(os.path.abspath(__file__))
 FALLBACK = os.path.join(HERE, 'gen_fallback.json')
 
 (TEXT, OPT, BOOL, REQ, LISTT, LISTOWN, OPTLIST, ERASED, REASON, VIEW, CLOSURE, POLICY, BOUND, SELF, INFO, OPTBOOL,
- OPTOPTS, CALLBACK, PARSED, BYTES, CTXT, VIEWFN) = (
+ OPTOPTS, CALLBACK, PARSED, BYTES, CTXT, VIEWFN, INT, NAT) = (
     'text', 'option text', 'bool', 'request', 'list text', 'list text (fresh)', 'option (list text)', 'erased', 'reason',
     'view', 'closure', 'policy', 'bound cookies', 'self', 'info', 'option bool', 'option options', 'callback', 'parsed url',
-    'bytes', 'context', 'view function')
+    'bytes', 'context', 'view function', 'int', 'length')
+SESSION_KEY = '_csrft_'
 
 
 class Problem(Exception):
@@ -297,8 +310,11 @@ class Tr:
     # ---------------------------------------------------------------- entry
     def translate(self):
         fn = self.fn
-        if not isinstance(fn, ast.FunctionDef) or fn.decorator_list:
-            raise Problem('not a plain undecorated def')
+        if not isinstance(fn, ast.FunctionDef):
+            raise Problem('not a plain def')
+        if [u(d) for d in fn.decorator_list] != list(self.spec.get('decorators', [])):
+            raise Problem('decorators are %r, expected %r' % ([u(d) for d in fn.decorator_list],
+                                                             list(self.spec.get('decorators', []))))
         env = self.bind_params(fn, self.spec['params'])
         env.update(self.spec.get('env', {}))
 
@@ -321,8 +337,10 @@ class Tr:
         for n in ast.walk(fn):
             if isinstance(n, (ast.Global, ast.Nonlocal, ast.Lambda, ast.ListComp, ast.SetComp, ast.DictComp, ast.NamedExpr,
                               ast.Await, ast.Yield, ast.YieldFrom, ast.While, ast.For, ast.With, ast.ClassDef, ast.Delete,
-                              ast.AugAssign, ast.AsyncFunctionDef)):
+                              ast.AsyncFunctionDef)):
                 raise Problem('construct outside the subset: %s' % type(n).__name__)
+            if isinstance(n, ast.AugAssign) and not self.spec.get('arith'):
+                raise Problem('construct outside the subset: AugAssign')
         return env
 
     # ---------------------------------------------------------------- statements
@@ -359,6 +377,14 @@ class Tr:
             return k_next(self.assign(s, env, facts), facts)
         if isinstance(s, ast.FunctionDef):
             return k_next(self.inner_def(s, env, facts), facts)
+        if isinstance(s, ast.AugAssign):
+            # n += e   (n an int local; e an int or a truth value: Python adds True as 1, False as 0)
+            if not (isinstance(s.op, ast.Add) and isinstance(s.target, ast.Name) and s.target.id in env
+                    and env[s.target.id][1] == INT):
+                raise Problem('augmented assignment outside the table: %s' % u(s))
+            env = dict(env)
+            env[s.target.id] = (A('N.add', [env[s.target.id][0], self.as_int(s.value, env, facts)]), INT)
+            return k_next(env, facts)
         if isinstance(s, ast.Expr):
             return self.expr_stmt(s, env, facts, k_next)
         if isinstance(s, ast.If):
@@ -373,6 +399,14 @@ class Tr:
         if isinstance(s, ast.Try):
             return self.try_urlparse(s, env, facts, k_next)
         raise Problem('statement outside the subset: %s' % u(s).split('\n')[0])
+
+    def as_int(self, n, env, facts):
+        obj, ty = self.expr(n, env, facts)
+        if ty == INT:
+            return obj
+        if ty == BOOL:
+            return A('b2n', [b_term(obj)])
+        raise Problem('%s is a %s where an int is expected' % (u(n), ty))
 
     def pair(self, val, env):
         return A('pair', [val, env['$store'][0]])
@@ -501,8 +535,15 @@ class Tr:
         if isinstance(tg, ast.Subscript) and self.ret.endswith('*store'):
             # request.session[self.key] = x   /   request.cookies[self.cookie_name] = x
             me = self.spec['selfname'](env)
-            want = {'session': ('%s.session' % self.req_name(env), '%s.key' % me),
-                    'cookie': ('%s.cookies' % self.req_name(env), '%s.cookie_name' % me)}[self.spec['store']]
+            st_kind = self.spec['store']
+            if st_kind == 'sessobj':            # self['_csrft_'] = x   inside the session object itself
+                want = (me, repr(SESSION_KEY))
+            elif st_kind == 'session':
+                want = ('%s.session' % self.req_name(env), '%s.key' % me)
+            elif st_kind == 'cookie':
+                want = ('%s.cookies' % self.req_name(env), '%s.cookie_name' % me)
+            else:
+                want = None
             if (u(tg.value), u(tg.slice)) != want:
                 raise Problem('store outside the table: %s' % u(s))
             obj, ty = self.expr(s.value, env, facts)
@@ -687,6 +728,8 @@ class Tr:
                 return lit(n.value), TEXT
             if n.value is None:
                 return K('None'), OPT
+            if isinstance(n.value, int) and self.spec.get('arith') and 0 <= n.value < 1000:
+                return K(str(n.value)), INT
             raise Problem('constant outside the table: %s' % u(n))
         if isinstance(n, (ast.UnaryOp, ast.BoolOp)) and (isinstance(n, ast.BoolOp) or isinstance(n.op, ast.Not)):
             return self.cond(n, env, facts), BOOL
@@ -726,6 +769,9 @@ class Tr:
             return b_not(b) if isinstance(op, ast.IsNot) else b
         lobj, lty = self.expr(l, env, facts)
         robj, rty = self.expr(r, env, facts) if not isinstance(r, ast.Set) else (None, None)
+        if isinstance(op, (ast.Eq, ast.NotEq)) and lty == rty and lty in (NAT, INT):
+            b = b_atom(A('Nat.eqb' if lty == NAT else 'N.eqb', [lobj, robj]))
+            return b_not(b) if isinstance(op, ast.NotEq) else b
         if isinstance(op, (ast.Eq, ast.NotEq)):
             a, b2 = self.as_text(lobj, lty, facts, l), self.as_text(robj, rty, facts, r)
             if a.key() == lit('').key():
@@ -760,6 +806,8 @@ class Tr:
                      'referer': ('env_get lit_HTTP_REFERER r', OPT)}
                 if n.attr in m:
                     return K('(%s)' % m[n.attr][0]), m[n.attr][1]
+                if n.attr == 'registry':
+                    return None, 'registry'
             if bty == PARSED and n.attr in ('scheme', 'netloc'):
                 return bobj[0 if n.attr == 'scheme' else 1], TEXT
             if bty == OPTOPTS:
@@ -812,6 +860,26 @@ class Tr:
                     return b_atom(K('(r_cb r)')), BOOL
                 raise Problem('call outside the table: %s' % u(n))
             name = f.id
+            if name == 'len' and len(n.args) == 1 and not n.keywords and self.spec.get('arith'):
+                obj, ty = self.expr(n.args[0], env, facts)
+                if ty != BYTES:
+                    raise Problem('len(..) of a %s' % ty)
+                return A('length', [obj]), NAT
+            if name == 'compare_digest' and len(n.args) == 2 and not n.keywords:
+                self.used.add(name)
+                a = [self.expr(x, env, facts) for x in n.args]
+                if a[0][1] != BYTES or a[1][1] != BYTES:
+                    raise Problem('compare_digest on %s, %s' % (a[0][1], a[1][1]))
+                return b_atom(A('bytes_eqb', [a[0][0], a[1][0]])), BOOL
+            if name == 'text_' and len(n.args) == 1 and not n.keywords and self.spec.get('store') == 'sessobj' \
+                    and u(n.args[0]).startswith('binascii.hexlify(os.urandom(') and isinstance(n.args[0], ast.Call) \
+                    and len(n.args[0].args) == 1 and isinstance(n.args[0].args[0], ast.Call) \
+                    and len(n.args[0].args[0].args) == 1 and isinstance(n.args[0].args[0].args[0], ast.Constant) \
+                    and isinstance(n.args[0].args[0].args[0].value, int) and n.args[0].args[0].args[0].value >= 16 \
+                    and not n.args[0].keywords and not n.args[0].args[0].keywords:
+                # the session's own fresh token: hex of >= 16 random bytes (non-empty, unguessable)
+                self.used.update(['text_', 'binascii', 'os'])
+                return K('(r_fresh r)'), TEXT
             if name == 'text_' and len(n.args) == 1 and not n.keywords:
                 self.used.add(name)
                 obj, ty = self.expr(n.args[0], env, facts)
@@ -859,7 +927,7 @@ class Tr:
                 a = [self.expr(x, env, facts) for x in n.args]
                 if a[0][1] != BYTES or a[1][1] != BYTES:
                     raise Problem('strings_differ on %s, %s' % (a[0][1], a[1][1]))
-                return b_atom(A('strings_differ', [a[0][0], a[1][0]])), BOOL
+                return b_atom(A('gen_strings_differ', [a[0][0], a[1][0]])), BOOL
             if name == 'bytes_' and 1 <= len(n.args) <= 2 and not n.keywords:
                 self.used.add(name)
                 obj, ty = self.expr(n.args[0], env, facts)
@@ -877,6 +945,18 @@ class Tr:
                 self.binds.append((A('encode_tok', [K('true' if utf8 else 'false'), x]), [],
                                    'Some %s' % b, [('None', self.raise_term('EUnicode', env))]))
                 return K(b), BYTES
+        # the session object's own methods (pyramid.session CookieSession): the held token is ST
+        if self.ret.endswith('*store') and self.spec.get('store') == 'sessobj':
+            me = self.spec['selfname'](env)
+            if src == '%s.get' % me and len(n.args) == 2 and not n.keywords and isinstance(n.args[0], ast.Constant) \
+                    and n.args[0].value == SESSION_KEY and isinstance(n.args[1], ast.Constant) and n.args[1].value is None:
+                return env['$store'][0], OPT
+            if src == '%s.new_csrf_token' % me and not n.args and not n.keywords:
+                callt = A('gen_sess_new', [K('r'), env['$store'][0]])
+                v, st = self.fresh('tok'), self.fresh('st')
+                self.binds.append((callt, [], '(%s, %s)' % (v, st), []))
+                self._newstore = (K(st), OPT)
+                return K(v), TEXT
         # method-style entries, matched on the source text of the callee
         req = None
         try:
@@ -905,20 +985,22 @@ class Tr:
                     and u(n.args[0]) == 'ICSRFStoragePolicy':
                 self.used.add('ICSRFStoragePolicy')
                 return None, POLICY
-            if self.ret.endswith('*store'):
+            if self.ret.endswith('*store') and self.spec.get('store') in ('session', 'legacy', 'cookie'):
                 me = self.spec['selfname'](env)
                 if self.spec['store'] == 'session':
                     if src == '%s.session.get' % req and len(n.args) == 2 and not n.keywords and u(n.args[0]) == '%s.key' % me \
                             and isinstance(n.args[1], ast.Constant) and n.args[1].value is None:
                         return env['$store'][0], OPT
                 if self.spec['store'] == 'legacy':
-                    if src == '%s.session.new_csrf_token' % req and not n.args and not n.keywords:
-                        self._newstore = (A('Some', [K('(r_fresh r)')]), OPT)
-                        return K('(r_fresh r)'), TEXT
-                    if src == '%s.session.get_csrf_token' % req and not n.args and not n.keywords:
-                        st = env['$store'][0]
-                        self._newstore = (A('session_store', [st, K('(r_fresh r)')]), OPT)
-                        return A('session_token', [st, K('(r_fresh r)')]), TEXT
+                    if src in ('%s.session.new_csrf_token' % req, '%s.session.get_csrf_token' % req) \
+                            and not n.args and not n.keywords:
+                        # the session object's method, itself regenerated (gen_sess_new / gen_sess_get)
+                        g = 'gen_sess_new' if src.endswith('new_csrf_token') else 'gen_sess_get'
+                        callt = A(g, [K('r'), env['$store'][0]])
+                        v, st = self.fresh('tok'), self.fresh('st')
+                        self.binds.append((callt, [], '(%s, %s)' % (v, st), []))
+                        self._newstore = (K(st), OPT)
+                        return K(v), TEXT
                 if self.spec['store'] == 'cookie':
                     if src == '%s.cookie_profile.bind' % me and len(n.args) == 1 and not n.keywords \
                             and self.expr(n.args[0], env, facts)[1] == REQ:
@@ -933,10 +1015,29 @@ class Tr:
                     self.binds.append((callt, [], '(%s, %s)' % (v, st), []))
                     self._newstore = (K(st), OPT)
                     return K(v), TEXT
+        base = None
         if isinstance(f, ast.Attribute) and isinstance(f.value, ast.Name) and f.value.id in env:
-            bobj, bty = env[f.value.id]
+            base = env[f.value.id]
+        elif isinstance(f, ast.Attribute) and req is not None and self.spec.get('api') \
+                and u(f.value) in ('%s.registry.getUtility(ICSRFStoragePolicy)' % req, '%s.registry' % req):
+            base = self.expr(f.value, env, facts)          # the policy / registry used without a local name
+        if base is not None:
+            bobj, bty = base
             if bty == BOUND and f.attr == 'get_value' and not n.args and not n.keywords:
                 return env['$store'][0], OPT
+            if bty == 'registry' and f.attr == 'getUtility' and len(n.args) == 1 and not n.keywords \
+                    and u(n.args[0]) == 'ICSRFStoragePolicy':
+                self.used.add('ICSRFStoragePolicy')
+                return None, POLICY
+            if bty == POLICY and f.attr in ('get_csrf_token', 'new_csrf_token') and len(n.args) == 1 and not n.keywords \
+                    and self.expr(n.args[0], env, facts)[1] == REQ and self.spec.get('api'):
+                # the configured policy's method (dispatch glue gen_policy_get / gen_policy_new), threading the held token
+                g = 'gen_policy_get' if f.attr == 'get_csrf_token' else 'gen_policy_new'
+                callt = A(g, [K('s'), K('r'), env['$store'][0]])
+                v, st = self.fresh('tok'), self.fresh('st')
+                self.binds.append((callt, [], '(%s, %s)' % (v, st), []))
+                self._newstore = (K(st), OPT)
+                return K(v), TEXT
             if bty == POLICY and f.attr == 'check_csrf_token' and len(n.args) == 2 and not n.keywords \
                     and self.expr(n.args[0], env, facts)[1] == REQ:
                 sobj, sty = self.expr(n.args[1], env, facts)
@@ -1026,11 +1127,36 @@ def policy_specs():
 FUNCS = [
     dict(file='pyramid/util.py', qual='is_same_domain', gen='gen_is_same_domain', ret='bool',
          params=[(K('host'), TEXT, None), (K('pattern'), TEXT, None)], sig='(host pattern : text) : bool'),
+    dict(file='pyramid/util.py', qual='strings_differ', gen='gen_strings_differ', ret='bool', arith=True,
+         params=[(K('s1'), BYTES, None), (K('s2'), BYTES, None)], sig='(s1 s2 : list N) : bool'),
+    dict(file='pyramid/session.py', qual='BaseCookieSessionFactory.CookieSession.new_csrf_token', gen='gen_sess_new',
+         ret='text*store', store='sessobj', selfname=_self_of, decorators=['manage_changed'],
+         env={'$store': (K('st'), OPT)}, params=[(None, SELF, None)],
+         sig='(r : request) (st : option text) : text * option text'),
+    dict(file='pyramid/session.py', qual='BaseCookieSessionFactory.CookieSession.get_csrf_token', gen='gen_sess_get',
+         ret='text*store', store='sessobj', selfname=_self_of, decorators=['manage_accessed'],
+         env={'$store': (K('st'), OPT)}, params=[(None, SELF, None)],
+         sig='(r : request) (st : option text) : text * option text'),
 ] + policy_specs() + [
     dict(file=None, gen='gen_policy_check', glue=(
         'Definition gen_policy_check (s : storage) (r : request) (st : option text) (supplied : text) : tverdict * option text :=\n'
         '  match s with\n  | Legacy => gen_legacy_check r st supplied\n  | Session => gen_session_check r st supplied\n'
         '  | Cookie => gen_cookie_check r st supplied\n  end.\n')),
+    dict(file=None, gen='gen_policy_get', glue=(
+        'Definition gen_policy_get (s : storage) (r : request) (st : option text) : text * option text :=\n'
+        '  match s with\n  | Legacy => gen_legacy_get r st\n  | Session => gen_session_get r st\n'
+        '  | Cookie => gen_cookie_get r st\n  end.\n')),
+    dict(file=None, gen='gen_policy_new', glue=(
+        'Definition gen_policy_new (s : storage) (r : request) (st : option text) : text * option text :=\n'
+        '  match s with\n  | Legacy => gen_legacy_new r st\n  | Session => gen_session_new r st\n'
+        '  | Cookie => gen_cookie_new r st\n  end.\n')),
+    # the public module-level API pyramid.csrf.get_csrf_token / new_csrf_token (what a view body calls)
+    dict(file='pyramid/csrf.py', qual='get_csrf_token', gen='gen_api_get', ret='text*store', api=True, store='api',
+         selfname=_self_of, env={'$store': (K('st'), OPT)}, params=[(K('r'), REQ, None)],
+         sig='(s : storage) (r : request) (st : option text) : text * option text'),
+    dict(file='pyramid/csrf.py', qual='new_csrf_token', gen='gen_api_new', ret='text*store', api=True, store='api',
+         selfname=_self_of, env={'$store': (K('st'), OPT)}, params=[(K('r'), REQ, None)],
+         sig='(s : storage) (r : request) (st : option text) : text * option text'),
     dict(file='pyramid/csrf.py', qual='check_csrf_token', gen='gen_check_csrf_token', ret='tverdict',
          params=[(K('r'), REQ, None), (K('token'), OPT, '=token'), (K('header'), OPT, '=header'),
                  (b_atom(K('raises')), BOOL, '=raises')],
@@ -1045,13 +1171,21 @@ FUNCS = [
 ]
 
 # every source function whose control flow is regenerated on every run (tools/coverage_map.py reads this)
-TRANSLATED = ['pyramid/util.py:is_same_domain'] + [
+TRANSLATED = ['pyramid/util.py:is_same_domain', 'pyramid/util.py:strings_differ',
+              'pyramid/session.py:BaseCookieSessionFactory.CookieSession.new_csrf_token',
+              'pyramid/session.py:BaseCookieSessionFactory.CookieSession.get_csrf_token'] + [
     'pyramid/csrf.py:%s.%s' % (c, m)
     for c in ('LegacySessionCSRFStoragePolicy', 'SessionCSRFStoragePolicy', 'CookieCSRFStoragePolicy')
     for m in ('new_csrf_token', 'get_csrf_token', 'check_csrf_token')] + [
     'pyramid/csrf.py:CookieCSRFStoragePolicy.new_csrf_token.set_cookie',    # body checked to be exactly the cookie delivery, then erased
+    'pyramid/csrf.py:get_csrf_token', 'pyramid/csrf.py:new_csrf_token',
     'pyramid/csrf.py:check_csrf_token', 'pyramid/csrf.py:check_csrf_origin', 'pyramid/csrf.py:check_csrf_origin._fail',
     'pyramid/viewderivers.py:csrf_view', 'pyramid/viewderivers.py:csrf_view.csrf_view']
+
+# the configuration side (harness/c12/translate_cfg.py: data flow of the directive into the options object)
+TRANSLATED += ['pyramid/config/security.py:SecurityConfiguratorMixin.set_default_csrf_options',
+               'pyramid/config/security.py:SecurityConfiguratorMixin.set_default_csrf_options.register',
+               'pyramid/config/security.py:DefaultCSRFOptions.__init__']
 
 WANT_BINDINGS = {
     'pyramid/csrf.py': {
@@ -1063,9 +1197,10 @@ WANT_BINDINGS = {
     'pyramid/viewderivers.py': {
         'check_csrf_origin': 'from pyramid.csrf import check_csrf_origin', 'check_csrf_token': 'from pyramid.csrf import check_csrf_token',
         'IDefaultCSRFOptions': 'from pyramid.interfaces import IDefaultCSRFOptions'},
-    'pyramid/util.py': {},
+    'pyramid/util.py': {'compare_digest': 'from hmac import compare_digest'},
+    'pyramid/session.py': {'text_': 'from pyramid.util import text_', 'binascii': 'import', 'os': 'import'},
 }
-BUILTINS = ('any', 'list', 'frozenset', 'ValueError')
+BUILTINS = ('any', 'list', 'frozenset', 'ValueError', 'len')
 
 
 def module_bindings(tree):
